@@ -55,6 +55,47 @@ pub fn run(ctx: &Ctx, reg: &Registry) -> i32 {
                         }
                     }
                     let vals: Vec<Ov> = live.iter().enumerate().map(|(i, f)| valid_value(&reg.defs, &f.ty, ctx.seed ^ h, i as u64, var)).collect();
+                    // duplicate keys (only the second value source can present them): whatever a repeated key
+                    // means for the value, a key that IS present is never reported missing. Model-free.
+                    if nf >= 2 {
+                        for dup in 0..nf {
+                            for at in [0usize, nf / 2, nf] {
+                                let mut members: Vec<(String, Ov)> = live.iter().zip(vals.iter()).map(|(f, v)| (f.key.clone(), v.clone())).collect();
+                                let extra = members[dup].clone();
+                                members.insert(at.min(members.len()), extra);
+                                // the repeated key first, directly followed by / preceded by the other keys
+                                let payload = assemble(&body, members, (dup + at) % 3);
+                                let run = run_case(s, &payload, Source::Ov, monitor::Script::Continue);
+                                acc.eval();
+                                acc.count("duplicate_key_payloads");
+                                acc.nontrivial(&(s.name(), &body.label, "dup", dup, at));
+                                if matches!(run.outcome, monitor::Outcome::Panic(_)) {
+                                    continue;
+                                }
+                                let Ov::Map(obj) = &payload else { continue };
+                                let mut bad: Option<String> = None;
+                                for r in run.reports() {
+                                    if let monitor::RKind::Missing { field } = &r.kind {
+                                        if r.loc.is_empty() && obj.iter().any(|(k, _)| k == field) && body.tag.as_ref().map_or(true, |t| t.0 != *field) {
+                                            bad = Some(format!("field {field:?} is reported missing although the object has it"));
+                                        }
+                                    }
+                                }
+                                for c in observed_calls(&run) {
+                                    if c.name.starts_with("missing_") && c.loc.as_ref().map_or(false, |l| l.is_empty()) && obj.iter().any(|(k, _)| *k == c.arg) {
+                                        bad = Some(format!("the missing_field_error function was called for {:?} although the object has that key", c.arg));
+                                    }
+                                }
+                                if let Some(what) = bad {
+                                    acc.violation(
+                                        format!("C08/present-key-reported-missing/{}", if body.tag.is_some() { "DerivedTaggedEnum" } else { "DerivedStruct" }),
+                                        "a key that is present (here: twice) was reported missing",
+                                        witness(s, &payload, Source::Ov, &monitor::Script::Continue, &run, json!({"what": what, "body": body.label})),
+                                    );
+                                }
+                            }
+                        }
+                    }
                     // all 2^n subsets of keys deleted
                     for mask in 0u32..(1u32 << nf) {
                         let present: Vec<usize> = (0..nf).filter(|i| mask & (1 << i) == 0).collect();
@@ -98,7 +139,7 @@ pub fn run(ctx: &Ctx, reg: &Registry) -> i32 {
         acc,
         Finish {
             level: "exploration",
-            rule: "for every struct-like body of every derived subject (catalogue + generated): ALL 2^n subsets of the non-skipped keys deleted (n <= 10), each crossed with nulling and with corrupting one remaining key and with entries named like the skipped fields. Oracle vs the reference interpreter: the exact multiset of MissingField{effective key}@container reports (present-but-invalid and null never add one), the custom missing_field_error calls with (key, location), the Ok projection (default taken iff key absent, `map` on top, skipped field = its default), and through the instrumented source that an entry named like a skipped field is never examined. Non-trivial = Ok value compared or report made; distinct = (subject, body, value) resp. trace shape.".into(),
+            rule: "for every struct-like body of every derived subject (catalogue + generated): ALL 2^n subsets of the non-skipped keys deleted (n <= 10), each crossed with nulling and with corrupting one remaining key and with entries named like the skipped fields. Oracle vs the reference interpreter: the exact multiset of MissingField{effective key}@container reports (present-but-invalid and null never add one), the custom missing_field_error calls with (key, location), the Ok projection (default taken iff key absent, `map` on top, skipped field = its default), and through the instrumented source that an entry named like a skipped field is never examined. Plus, model-free, payloads in which one key at a time appears twice (second value source): a key that is present is never reported missing nor passed to the missing_field_error function. Non-trivial = Ok value compared or report made; distinct = (subject, body, value) resp. trace shape.".into(),
             exhaustive: false,
             assumptions: vec!["skip + map on one field is not generated (the statement does not order them)".into()],
         },
